@@ -126,7 +126,10 @@ class SpatialTransform(DeviceProperty, Module, metaclass=ABCMeta):
         r"""Get grid domain of this transformation or a new transformation with the specified grid."""
         if grid is None:
             return self._grid
-        return shallow_copy(self).grid_(grid)
+        copy = shallow_copy(self)
+        # Shallow copy shares container of parameters, which grid_() of a subclass may replace
+        copy._parameters = copy._parameters.copy()
+        return copy.grid_(grid)
 
     def grid_(self: TSpatialTransform, grid: Grid) -> TSpatialTransform:
         r"""Set sampling grid which defines domain and codomain of this transformation."""
